@@ -6,6 +6,7 @@ package checks
 
 import (
 	"fmt"
+	"strings"
 	"math/big"
 
 	"github.com/gmrtd/gmrtd/cms"
@@ -363,24 +364,30 @@ func gSummary(s *document.DocumentSummary) lds.View {
 	gStr(v, "mrzOptionalData2", a.MrzOptionalData2)
 	gStr(v, "issuingAuthority", a.IssuingAuthority)
 	gStr(v, "dateOfIssue", a.DateOfIssue)
-	var faces, sigs []any
+	var faces, sigs, faceF, sigF []any
 	for _, im := range a.FaceImages {
 		faces = append(faces, lds.Hx(im.Data))
+		faceF = append(faceF, string(im.Format))
 	}
 	for _, im := range a.SignatureImages {
 		sigs = append(sigs, lds.Hx(im.Data))
+		sigF = append(sigF, string(im.Format))
 	}
 	if len(faces) > 0 {
 		v["faceImages"] = faces
+		v["faceImageFormats"] = faceF
 	}
 	if len(sigs) > 0 {
 		v["signatureImages"] = sigs
+		v["signatureImageFormats"] = sigF
 	}
 	if a.DocumentImageFront != nil {
 		v["documentImageFront"] = lds.Hx(a.DocumentImageFront.Data)
+		v["documentImageFrontFormat"] = string(a.DocumentImageFront.Format)
 	}
 	if a.DocumentImageRear != nil {
 		v["documentImageRear"] = lds.Hx(a.DocumentImageRear.Data)
+		v["documentImageRearFormat"] = string(a.DocumentImageRear.Format)
 	}
 	if len(a.PersonsToNotify) > 0 {
 		v["personsToNotify"] = gPersons(a.PersonsToNotify)
@@ -388,4 +395,35 @@ func gSummary(s *document.DocumentSummary) lds.View {
 	gStr(v, "ldsVersion", s.LdsVersion)
 	gStr(v, "unicodeVersion", s.UnicodeVersion)
 	return v
+}
+
+// imageFormats adds to a reference summary the media type of every image it lists, decided on the image's own first
+// octets (ISO/IEC 10918-1 SOI + marker: image/jpeg; ISO/IEC 15444-1 signature box or SOC + SIZ codestream: image/jp2).
+func imageFormats(want lds.View) {
+	f := func(x any) string {
+		h := strings.ToLower(fmt.Sprint(x))
+		switch {
+		case strings.HasPrefix(h, "ffd8ff"):
+			return "image/jpeg"
+		case strings.HasPrefix(h, "ff4fff51"), strings.HasPrefix(h, "0000000c6a5020200d0a870a"):
+			return "image/jp2"
+		}
+		return ""
+	}
+	list := func(key, out string) {
+		if l, ok := want[key].([]any); ok && len(l) > 0 {
+			var fs []any
+			for _, x := range l {
+				fs = append(fs, f(x))
+			}
+			want[out] = fs
+		}
+	}
+	list("faceImages", "faceImageFormats")
+	list("signatureImages", "signatureImageFormats")
+	for _, k := range []string{"documentImageFront", "documentImageRear"} {
+		if x, ok := want[k]; ok && x != nil && fmt.Sprint(x) != "" {
+			want[k+"Format"] = f(x)
+		}
+	}
 }
